@@ -305,11 +305,20 @@ class Intrinsics:
         self.eng.note("[SPEC-BUILTIN]")
         kt = to_val(key)
         from contracts.core import is_mapping
+        if isinstance(key, Z) and key.hint == "slice":
+            parts = key.meta.get("parts", [])
+            if len(parts) == 3 and isinstance(parts[1], Const) and parts[1].v is None and isinstance(parts[2], Const) \
+                    and parts[2].v is None and not (isinstance(parts[0], Const) and parts[0].v is None):
+                # x[n:]
+                r = list_slice_from(obj.term, VInt(as_int(parts[0])))
+                return [(st, Z(r, None, {"from": obj, "plain": obj.meta.get("plain", False), "fresh_container": True}))]
         if isinstance(key, Iv) or (isinstance(key, Const) and isinstance(key.v, int)):
             from .loops import seq_at
             r = seq_at(obj.term, as_int(key))
         else:
             r = z3.If(is_mapping(obj.term), dict_get(obj.term, kt), F("plain_getitem", Val, Val, Val)(obj.term, kt))
+        if obj.meta.get("plain", False):
+            st.assume(z3.Not(smt.is_VRef(r)))      # the items of a plain value are plain values
         return [(st, Z(r, None, {"from": obj, "plain": obj.meta.get("plain", False)}))]
 
     def setitem(self, st, obj, key, val):
@@ -334,7 +343,7 @@ class Intrinsics:
         raise Unsupported(f"del subscript on {obj!r}")
 
     def make_slice(self, st, parts):
-        return Z(mk_slice(*[to_val(p) for p in parts]), "slice")
+        return Z(mk_slice(*[to_val(p) for p in parts]), "slice", {"plain": True, "parts": list(parts)})
 
     def unpack(self, st, val, n):
         if isinstance(val, TupleV):
@@ -1116,7 +1125,7 @@ class Intrinsics:
             return [(st, Const(len(v.items)))]
         if isinstance(v, Z):
             eng.note("[SPEC-BUILTIN]")
-            r = F("plain_len", Val, IntS)(v.term)
+            r = list_len(v.term)
             st.assume(r >= 0)
             return [(st, Iv(r))]
         raise Unsupported("len of " + repr(v))
